@@ -424,6 +424,11 @@ def gen_rt(rng):
         return RT(pname, 'result', value=v, rid=gen_id(rng, pname, allow_null=True))
     if r < 0.8:
         msg = cc.gen_str(rng) if rng.random() < 0.9 else json.dumps(rng.choice(FORWARDED), separators=(',', ':'))
+        if rng.random() < 0.08:
+            # long error messages (an error that echoes the peer's arguments back): around 1 KiB,
+            # 4 KiB and 64 KiB, ASCII and multi-byte
+            n = rng.choice((1023, 1024, 1025, 1026, 2048, 4095, 4097, 65535, 65537))
+            msg = (rng.choice(('e', 'é', '\u65e5', '\U0001f600', 'ab"\\\n')) * n)[:n]
         rid = gen_id(rng, pname, allow_null=True)
         if rng.random() < 0.05:
             rid = json.dumps(rng.choice(FORWARDED), separators=(',', ':'))
